@@ -193,7 +193,7 @@ func main() {
 		"soundness direction is decisive (pass only if contained); 'contained but rejected' is counted as a completeness observation, not a violation, except across renderings of the same identity list (metamorphic) and for the wildcard",
 		"subjects with empty attribute values are not generated (whether they are 'interpretable' is not stated)"}
 	n := r.N(4000, 300000)
-	vals := []string{"US", "WA", "Org", "a,b", "x+y", `q"r`, `b\s`, "<t>", "s;t", " lead", "trail ", "#hash", "a=b", "Ünï", "A", "Org2", "DE", "x", "o u"}
+	vals := []string{"US", "WA", "Org", "a,b", "x+y", `q"r`, `b\s`, "<t>", "s;t", " lead", "trail ", "#hash", "a=b", "Ünï", "A", "Org2", "DE", "x", "o u", "svc:prod", ":lead", "a:b:c", "svc"}
 	types := []string{"C", "ST", "O", "OU", "CN", "L", "STREET"}
 	rootAttrs := []av{{"C", "US"}, {"ST", "WA"}, {"O", "RootOrg"}, {"CN", "root"}}
 	interAttrs := []av{{"C", "US"}, {"ST", "WA"}, {"O", "InterOrg"}, {"OU", "issuing"}}
@@ -219,7 +219,7 @@ func main() {
 			c.Subject = append(c.Subject, []av{subj[j]})
 		}
 		c.Interpret = true
-		shape := rng.Intn(16)
+		shape := rng.Intn(17)
 		base := append([]av(nil), subj...)
 		mandatory := func() []av {
 			var out []av
@@ -378,6 +378,14 @@ func main() {
 			c.Interpret = false
 			c.Subject = append(c.Subject, []av{{"UNKNOWN", "v"}})
 			c.Extra = []string{"*"}
+		case 16:
+			// an identity whose value continues after a colon ("CN=svc:prod"): the value is the WHOLE string after the first
+			// '=' - a leaf that carries only the part before the colon does not match
+			c.Shape = "identity-value-continues-after-colon"
+			s := append([]av(nil), base...)
+			k := rng.Intn(len(s))
+			s[k].V = s[k].V + ":" + []string{"prod", "", "x:y"}[rng.Intn(3)]
+			c.Identities = [][]av{s}
 		case 14:
 			// the identity repeats an attribute (same or another value, adjacent or not): it cannot be interpreted, so
 			// the policy is refused - and in no case may "one of the two values" be what is compared
@@ -458,7 +466,14 @@ func main() {
 			for _, id := range c.Identities {
 				idStrs = append(idStrs, render(id, rng, variant))
 			}
-			idStrs = append(idStrs, c.Extra...)
+			if variant%2 == 1 && !wild {
+				idStrs = append(append([]string{}, c.Extra...), idStrs...) // identities of another kind FIRST
+			} else {
+				idStrs = append(idStrs, c.Extra...)
+			}
+			if variant == 3 && len(c.Identities) > 0 && len(c.Extra) == 0 {
+				idStrs = append([]string{"acme.signer.id:42"}, idStrs...)
+			}
 			doc := lib.OCIPolicy(L.SV(i), []string{"ca:x"}, idStrs)
 			vopts := verifier.VerifierOptions{OCITrustPolicy: doc, RevocationCodeSigningValidator: lib.OKRev{}, RevocationTimestampingValidator: lib.OKRev{}}
 			if revOnlyPlugin {
